@@ -445,6 +445,10 @@ int32_t tls13GenerateKeyForGroup(ssl_t *ssl, uint16_t namedGroup)
         {
             goto out_internal_error;
         }
+        /* psNewPubKey does not initialise a DH key: make it safe to clear
+           if one of the steps below fails. */
+        Memset(&ssl->sec.tls13KeyAgreeKeys[i]->key.dh, 0,
+                sizeof(ssl->sec.tls13KeyAgreeKeys[i]->key.dh));
 
         /* Ignore whatever DH params the user may have loaded for TLS 1.2. */
         if (ssl->keys->dhParams.size != 0)
@@ -457,6 +461,9 @@ int32_t tls13GenerateKeyForGroup(ssl_t *ssl, uint16_t namedGroup)
                 &ssl->keys->dhParams);
         if (rc < 0)
         {
+            /* Do not leave a half-made key behind: it would be cleared
+               (pstm_clear on uninitialised integers) with the session. */
+            psDeletePubKey(&ssl->sec.tls13KeyAgreeKeys[i]);
             return rc;
         }
 
@@ -466,6 +473,7 @@ int32_t tls13GenerateKeyForGroup(ssl_t *ssl, uint16_t namedGroup)
                 NULL);
         if (rc < 0)
         {
+            psDeletePubKey(&ssl->sec.tls13KeyAgreeKeys[i]);
             goto out_internal_error;
         }
 # endif /* !USE_DH */
@@ -1054,6 +1062,12 @@ psBool_t tls13WeSupportGroup(ssl_t *ssl,
         uint16_t namedGroup)
 {
     psSize_t i;
+
+    /* 0 is not a NamedGroup: it marks the unused entries of the list. */
+    if (namedGroup == 0)
+    {
+        return PS_FALSE;
+    }
 
     for (i = 0; i < TLS_1_3_MAX_GROUPS; i++)
     {
